@@ -289,6 +289,9 @@ func (n refNum) neg() any {
 // text is an int64 literal and a double otherwise.
 func (c *refCtx) asNum(v any) (refNum, bool) {
 	switch v := v.(type) {
+	case refID:
+		c.decline("the numeric value of a keyvalue id is used")
+		return refNum{isInt: true, i: 1}, true
 	case int64:
 		return refNum{isInt: true, i: v}, true
 	case float64:
@@ -309,7 +312,7 @@ func (c *refCtx) asNum(v any) (refNum, bool) {
 
 func isNumber(v any) bool {
 	switch v.(type) {
-	case int64, float64, json.Number:
+	case int64, float64, json.Number, refID:
 		return true
 	}
 	return false
@@ -457,6 +460,20 @@ func (c *refCtx) pred(e *Expr) (tv, *refErr) {
 			return tvF, nil
 		})
 	case KExists:
+		if c.hasQuirk("unary-nonnumeric-exists-true") && !c.strict && (e.A.K == KNeg || e.A.K == KPos) && len(e.A.Steps) == 0 {
+			// recorded defect: in existence mode unary +/- counts a non-numeric operand item as found
+			seq, err := c.collect(e.A.A, true)
+			if err != nil {
+				if err.hard {
+					return tvU, err
+				}
+				return tvU, nil
+			}
+			if len(seq) > 0 {
+				return tvT, nil
+			}
+			return tvF, nil
+		}
 		found := false
 		err := c.eval(e.A, func(any) *refErr {
 			found = true
@@ -602,8 +619,16 @@ func (c *refCtx) compare(op string, a, b any) (tv, *refErr) {
 			return tvU, nil
 		}
 		return applyOp(op, strings.Compare(x, y)), nil
-	case int64, float64, json.Number:
+	case int64, float64, json.Number, refID:
 		if !isNumber(b) {
+			return tvU, nil
+		}
+		if _, ok := a.(refID); ok {
+			c.decline("the numeric value of a keyvalue id is compared")
+			return tvU, nil
+		}
+		if _, ok := b.(refID); ok {
+			c.decline("the numeric value of a keyvalue id is compared")
 			return tvU, nil
 		}
 		return applyOp(op, c.cmpNum(a, b)), nil
